@@ -183,6 +183,11 @@ def run_history(case):
     ov0 = np.asarray(pd["overlaps"])
     if not (np.all(np.isfinite(ov0)) and np.all(ov0 != 0)):
         return {"events": [ev("start/skip", None, key="C09/skip-start-condition")], "nontrivial": False}
+    # jitted refresh closures: eager batched calls would re-trace their scan bodies (a new executable) on every call
+    import jax
+
+    j_ovlp = jax.jit(lambda w_: trial.calc_overlap(w_, wd))
+    j_green = jax.jit(lambda w_: trial.calc_full_green_vmap(w_, wd)) if "greens" in pd else None
     fam = "phaseless" if case["prop"] in PHASELESS else "cpmc"
     mon = WeightMonitor(fam, "C09/%s" % case["prop"])
     cnt = {"steps_observed": 0, "injections": 0, "reconfigurations": 0, "qr_events": 0, "deaths_observed": 0}
@@ -218,15 +223,15 @@ def run_history(case):
             break
         if (step + 1) % case["qr_every"] == 0:
             pd = prop.orthonormalize_walkers(pd)
-            pd["overlaps"] = trial.calc_overlap(pd["walkers"], wd)
+            pd["overlaps"] = j_ovlp(pd["walkers"])
             if "greens" in pd:
-                pd["greens"] = trial.calc_full_green_vmap(pd["walkers"], wd)
+                pd["greens"] = j_green(pd["walkers"])
             cnt["qr_events"] += 1
         if (step + 1) % case["sr_every"] == 0 and float(jnp.sum(pd["weights"])) > 0:
             pd = prop.stochastic_reconfiguration_local(pd)
-            pd["overlaps"] = trial.calc_overlap(pd["walkers"], wd)
+            pd["overlaps"] = j_ovlp(pd["walkers"])
             if "greens" in pd:
-                pd["greens"] = trial.calc_full_green_vmap(pd["walkers"], wd)
+                pd["greens"] = j_green(pd["walkers"])
             wn = np.asarray(pd["weights"])
             if not (np.all(np.isfinite(wn)) and np.all(wn >= 0)):
                 mon._fail("weights-finite-after-reconfiguration", step=step)
